@@ -567,6 +567,12 @@ impl<'a, T: RealNumber, M: Matrix<T>, K: Kernel<T, M::RowVector>> Optimizer<'a, 
     }
 
     fn permutate(n: usize) -> Vec<usize> {
+        #[cfg(smartcore_verif)]
+        {
+            if let Some(order) = crate::verif::next_schedule(n) {
+                return order;
+            }
+        }
         let mut rng = rand::thread_rng();
         let mut range: Vec<usize> = (0..n).collect();
         range.shuffle(&mut rng);
